@@ -4,7 +4,7 @@ Model of
   featureWriters/baseFeatureWriter.py : INSERT_FEATURE_MARKER, BaseFeatureWriter.setContext / shouldContinue / write,
                                          collectInsertMarkers, _insert
   featureWriters/ast.py               : findCommentPattern, iterFeatureBlocks / findFeatureTags, findTable
-  featureWriters/gdefFeatureWriter.py : the placement part of GdefFeatureWriter._write
+  featureWriters/gdefFeatureWriter.py : GdefFeatureWriter.setContext (what is left to do) and the placement part of _write
   featureCompiler.py                  : FeatureCompiler._load_custom_feature_writers, initFeatureWriters
 
 The feature file (`feaLib.ast.FeatureFile.statements`) is a list of statements.  User statements carry a unique id
@@ -280,13 +280,78 @@ def gdefWrite (active : Bool) (items : List Nat) (newGid : Nat) (f : File) : Fil
     | _ => f
   | none => f ++ [.gen (.other newGid)]
 
+/-! ### GdefFeatureWriter.setContext : what is still to be generated -/
+
+/-- the statement types `GdefFeatureWriter.setContext` tells apart inside the user's `table GDEF` -/
+inductive GKind
+  | glyphClassDef                                  -- ast.GlyphClassDefStatement
+  | caretByIndex                                   -- ast.LigatureCaretByIndexStatement
+  | caretByPos                                     -- ast.LigatureCaretByPosStatement
+  | other                                          -- Attach, comments, anything else
+  deriving DecidableEq, Repr
+
+/-- what the harness knows when the GDEF writer runs: the type of every user statement that stands in a `table GDEF`
+(read from the user's text, by uid), and the two facts about the font that decide whether there is data to write -/
+structure GdefIn where
+  kinds : List (Nat × GKind)
+  hasCats : Bool                  -- any(OpenTypeCategories.load(font)): some glyph has a valid public.openTypeCategories value
+  carets : Nat                    -- len(_getLigatureCarets()): glyphs with a caret_* / vcaret_* anchor
+  base : Nat                      -- ids for the generated statements are base+1, base+2, …
+  deriving Repr
+
+def itemKind (kinds : List (Nat × GKind)) : Item → GKind
+  | .leaf u => (kinds.lookup u).getD .other
+  | _ => .other
+
+/-- `ast.findTable(feaFile, "GDEF")`: the statements of the first top-level `table GDEF` -/
+def findGdefTable (f : File) : Option (List Item) :=
+  match f.find? isGdefTable with
+  | some (.block _ _ _ _ body) => some body
+  | _ => none
+
+/-- `ctx.todo` restricted to the writer's two features -/
+structure GTodo where
+  classDefs : Bool                -- "GlyphClassDefs" in todo
+  carets : Bool                   -- "LigatureCarets" in todo
+  deriving DecidableEq, Repr
+
+/-- the `for fea in ctx.gdefTableBlock.statements` loop, with its `if not ctx.todo: break` -/
+def gdefScan : List GKind → GTodo → GTodo
+  | [], t => t
+  | k :: l, t =>
+    let t' : GTodo := match k with
+      | .glyphClassDef => { t with classDefs := false }
+      | .caretByIndex => { t with carets := false }
+      | .caretByPos => { t with carets := false }
+      | .other => t
+    if !t'.classDefs && !t'.carets then t' else gdefScan l t'
+
+/-- GdefFeatureWriter.setContext.  `super().setContext` gives todo = features - existing feature tags; the writer's
+features ("GlyphClassDefs", "LigatureCarets") are no feature tags, so that is all of them (in "append" mode too). -/
+def gdefTodo (i : GdefIn) (f : File) : GTodo :=
+  let t := match findGdefTable f with
+    | some body => gdefScan (body.map (itemKind i.kinds)) ⟨true, true⟩
+    | none => ⟨true, true⟩
+  ⟨t.classDefs && i.hasCats, t.carets && i.carets != 0⟩
+
+/-- the statements `_write` builds, in its order: one GlyphClassDef, then one LigatureCaretByPos per glyph with carets -/
+def gdefGen (t : GTodo) (carets : Nat) : List GKind :=
+  (if t.classDefs then [.glyphClassDef] else []) ++ (if t.carets then List.replicate carets .caretByPos else [])
+
+def gdefGenOf (i : GdefIn) (f : File) : List GKind := gdefGen (gdefTodo i f) i.carets
+
+/-- GdefFeatureWriter.write: setContext, shouldContinue (`todo` not empty), `_write` -/
+def gdefStep (i : GdefIn) (f : File) : File :=
+  let gen := gdefGenOf i f
+  gdefWrite (!gen.isEmpty) ((List.range gen.length).map (fun k => i.base + 1 + k)) (i.base + 1) f
+
 inductive Step
   | writer (w : Writer)
-  | gdef (active : Bool) (items : List Nat) (newGid : Nat)
+  | gdef (i : GdefIn)
 
 def step : Step → File → Except Err File
   | .writer w, f => write w f
-  | .gdef a items g, f => .ok (gdefWrite a items g f)
+  | .gdef i, f => .ok (gdefStep i f)
 
 /-- the `for writer in self.featureWriters: writer.write(...)` loop; returns the file after each writer -/
 def runAll : List Step → File → Except Err (List File)
